@@ -603,29 +603,41 @@ class PVLParser(object):
                 f'but found: "{t}"'
             )
         set_seq = list()
-        # Initial WSC and/or empty
-        if self.parse_WSC_until(delimiters[1], tokens):
-            return set_seq
+        try:
+            # Initial WSC and/or empty
+            if self.parse_WSC_until(delimiters[1], tokens):
+                return set_seq
 
-        # First item:
-        set_seq.append(self.parse_value(tokens))
-        if self.parse_WSC_until(delimiters[1], tokens):
-            return set_seq
+            # First item:
+            set_seq.append(self.parse_value(tokens))
+            if self.parse_WSC_until(delimiters[1], tokens):
+                return set_seq
 
-        # Remaining items, if any
-        for t in tokens:
-            # print(f'in loop, t: {t}, set_seq: {set_seq}')
-            if t == ",":
-                self.parse_WSC_until(None, tokens)  # consume WSC after ','
-                set_seq.append(self.parse_value(tokens))
-                if self.parse_WSC_until(delimiters[1], tokens):
-                    return set_seq
-            else:
-                tokens.send(t)
-                tokens.throw(
-                    ValueError,
-                    "While parsing, expected a comma (,)" f'but found: "{t}"',
-                )
+            # Remaining items, if any
+            for t in tokens:
+                # print(f'in loop, t: {t}, set_seq: {set_seq}')
+                if t == ",":
+                    # consume WSC after ','
+                    self.parse_WSC_until(None, tokens)
+                    set_seq.append(self.parse_value(tokens))
+                    if self.parse_WSC_until(delimiters[1], tokens):
+                        return set_seq
+                else:
+                    tokens.send(t)
+                    tokens.throw(
+                        ValueError,
+                        "While parsing, expected a comma (,)"
+                        f'but found: "{t}"',
+                    )
+        except StopIteration:
+            pass
+
+        # Getting here means that the tokens ran out before the
+        # end delimiter was found.
+        raise ParseError(
+            f'Ran out of tokens before the end delimiter "{delimiters[1]}" '
+            f'that matches the begin delimiter "{delimiters[0]}".'
+        )
 
     def parse_set(self, tokens: abc.Generator) -> frozenset:
         """Parses a PVL Set.
